@@ -208,11 +208,11 @@ theorem verbOK_heading (P) (codeOn : Bool) (ws : List Nat) : SegOK P VerbSeg (ru
     · rw [h'] at h; cases h; rfl
     · rw [h'] at h; cases h
 
-theorem verbOK_paragraph (terms : List BRule) (hin : ∀ t ∈ terms, SilentInert t) (ws : List Nat) :
-    SegOK TopCtx VerbSeg (ruleParagraph terms ws) := by
+theorem verbOK_paragraph (P : BState → Nat → Prop) (terms : List BRule) (hin : ∀ t ∈ terms, SilentInert t) (ws : List Nat) :
+    SegOK P VerbSeg (ruleParagraph terms ws) := by
   refine ⟨?_, ?_⟩
   · intro s line endLine s' hc h
-    obtain ⟨n, c, h1, h2, h'⟩ := paragraph_shape terms hin ws s line endLine hc
+    obtain ⟨n, c, h1, h2, h'⟩ := paragraph_shape P terms hin ws s line endLine hc
     rw [h'] at h; cases h
     refine ⟨?seg, ?heq, ?hv⟩
     case heq =>
@@ -223,7 +223,7 @@ theorem verbOK_paragraph (terms : List BRule) (hin : ∀ t ∈ terms, SilentIner
       simp only [List.mem_append, List.mem_singleton] at ht
       rcases ht with rfl | rfl | rfl <;> exact other_types _ _ (by simp [pushedTok, Tok.type]) (by simp [pushedTok, Tok.type]) (by simp [pushedTok, Tok.type])
   · intro s line endLine s' hc h
-    obtain ⟨n, c, h1, h2, h'⟩ := paragraph_shape terms hin ws s line endLine hc
+    obtain ⟨n, c, h1, h2, h'⟩ := paragraph_shape P terms hin ws s line endLine hc
     rw [h'] at h; cases h
 
 theorem miniChain_verbOK (c : MiniCfg) (ws : List Nat) : ∀ r ∈ miniChain c ws, SegOK TopCtx VerbSeg r := by
@@ -242,7 +242,7 @@ theorem miniChain_verbOK (c : MiniCfg) (ws : List Nat) : ∀ r ∈ miniChain c w
   · split at hr
     · simp at hr; subst hr; exact verbOK_heading _ _ _
     · cases hr
-  · subst hr; exact verbOK_paragraph _ (miniTerminators_inert c ws) ws
+  · subst hr; exact verbOK_paragraph _ _ (miniTerminators_inert c ws) ws
 
 /-- **C08.mini_verbatim** — every code block, fence and thematic break of the modelled parse holds exactly the
 `getLines` cuts / marker scan of the source lines its map points to (line tables of the normalised source, block
